@@ -19,6 +19,7 @@ META = dict(
 META["text"] += " (R5, N) no array inherits the sample's dtype through np.full_like / np.empty_like (= C12.R6), and in-place conventions are keyed to the null mean, not to the statistic (= C01.R5)."
 META["text"] += ' (R4 = C13.R1-R3) the history is non-negative because every factor is: the clamped estimators and the bets stay in range.'
 META["text"] += ' (R6, N) no method keeps state between calls (see C01.R8). An early exit is one more row of the table: R1 and R3 hold on it as well.'
+META["text"] += ' R2 holds for every sample length >= 1 (length formulas carry the smallest n they are exact for). R3 also: the constructor keeps its positional protocol, so a positional random_order reaches the tests.'
 
 REL = nnm.REL
 
